@@ -4,7 +4,6 @@ import (
 	"fmt"
 	"go/token"
 	"go/types"
-	"strings"
 
 	"golang.org/x/tools/go/packages"
 	"golang.org/x/tools/go/ssa"
@@ -53,7 +52,7 @@ func runC17(c *Ctx) {
 	}
 	funcs := p.AllSrcFuncs(pk)
 	// anchors by shape (field types, configuration tags, the goroutine a shard method starts), see c17mx_A8.go
-	anc := findC17Anchors(p)
+	anc := c17AnchorsOf(p)
 	shardT, procT, multiT := anc.shardT, anc.procT, anc.multiT
 	if shardT == nil || procT == nil || multiT == nil {
 		c.Rule("R2", "WHO", "", 0)
@@ -167,12 +166,21 @@ func runC17(c *Ctx) {
 	// split comparator of the three batch types
 	nsplit := 0
 	for _, fn := range funcs {
-		if fn.Parent() != nil || fn.Name() != "split" || recvNamedOfFn(fn) == nil || len(fn.Params) != 2 {
+		if fn.Parent() != nil || recvNamedOfFn(fn) == nil || len(fn.Params) != 2 || funcObj(fn) == nil || batchMethodKind(funcObj(fn)) != "split" {
 			continue
 		}
+		// the hand-over to the package-level split helper: a same-package function without receiver that is given the maximum
 		for _, ci := range calls(fn, func(ci ssa.CallInstruction) bool {
 			cf := staticCalleeFn(ci)
-			return cf != nil && recvNamedOfFn(cf) == nil && strings.HasPrefix(cf.Name(), "split")
+			if cf == nil || recvNamedOfFn(cf) != nil || cf.Parent() != nil || !samePackageFn(cf, fn) {
+				return false
+			}
+			for _, a := range ci.Common().Args {
+				if a == ssa.Value(fn.Params[1]) {
+					return true
+				}
+			}
+			return false
 		}) {
 			nsplit++
 			strict := false
